@@ -3,12 +3,16 @@ import CG.Driver.HGraph
 import CG.Driver.HName
 import CG.Driver.GraphCodec
 import CG.Driver.HQuery
+import CG.Driver.HTopo
+import CG.Driver.HDsep
 
 /-- stateless handlers: first token of a line selects the handler -/
 def handlers : List (String × (List String → String)) := [
   ("echo", fun args => " ".intercalate args),
   ("name", CG.Driver.Name.handle),
   ("q10", CG.Driver.Query.handle),
+  ("topo", CG.Driver.Topo.handle),
+  ("dsep", CG.Driver.Dsep.handle),
   ("gecho", fun args => match args with
     | [t] => (match CG.Driver.GraphCodec.decGraph? t with | some g => CG.Driver.GraphCodec.encGraph g | none => "bad-op")
     | _ => "bad-op")
